@@ -256,6 +256,8 @@ def run_cli(lines_nl, files):
 
 
 def _write(fn, content):
+    if os.path.dirname(fn):
+        os.makedirs(os.path.dirname(fn), exist_ok=True)
     with open(fn, "w") as f:
         if content and content[0].startswith("RAW:"):
             f.write(content[0][4:])
